@@ -1,4 +1,4 @@
-; empty-dimensions-array: Variable(name='x', type=INTEGER, dimensions=()) and the route through Array.rescope
+; (repaired, regression) empty-dimensions-array: Variable(name='x', type=INTEGER, dimensions=()) and the route through Array.rescope
 (hist (tdefs) (ops (create ("x") none (ty integer none 0) none 0)))
 (hist (tdefs) (ops (newscope none) (settype 0 "x" (ty integer none 0)) (create ("x") none (ty real 1 0) none none) (rescope 0 0)))
 ; qualified-name-without-parent: Variable(name='q%a', scope=s) is named 'a' and overwrites the entry of 'a'
@@ -7,7 +7,7 @@
 (hist (tdefs ("tt" ("a" (ty integer none 0)) ("b" (ty real none 0)))) (ops (newscope none) (settype 0 "p" (ty (derived "tt" 0) none 0)) (create ("p") 0 none none none) (create ("p" "a") 0 (ty logical none 0) 0 none) (create ("p" "b") 0 none 0 none)))
 ; deferred-entry-on-member: a DEFERRED entry for p%a is not what the member reports
 (hist (tdefs ("tt" ("a" (ty integer none 0)))) (ops (newscope none) (settype 0 "p" (ty (derived "tt" 0) none 0)) (create ("p") 0 none none none) (create ("p" "a") 0 none 0 none) (settype 0 "p%a" (ty deferred none 0))))
-; deferred-member-recursion: member of DEFERRED type, attached parent
+; (repaired, regression) deferred-member-recursion: member of DEFERRED type, attached parent
 (hist (tdefs ("tt" ("d" (ty deferred none 0)))) (ops (newscope none) (settype 0 "p" (ty (derived "tt" 0) none 0)) (create ("p") 0 none none none) (create ("p" "d") 0 none 0 none)))
 ; sharing through two levels of nesting, mixed case
 (hist (tdefs) (ops (newscope none) (newscope 0) (newscope 1) (settype 0 "X" (ty integer none 1)) (resolve 2 "x") (settype 0 "x" (ty real 2 2)) (settype 1 "x" (ty logical none 3)) (resolve 2 "X")))
